@@ -49,8 +49,11 @@ FloatishByte(b) == IsDigitB(b) \/ b \in {43, 45, 46, 95, 69, 101, 88, 120, 80, 1
 DefinitelyNotNumber(s) == s = <<>> \/ \E i \in 1..Len(s) : ~FloatishByte(s[i])
 
 \* numeric operand: [r |-> "num", v |-> number] | [r |-> "err"] | [r |-> "unspec"]
+\* (a plain run of 8 to 16 digits spells a whole number beyond the modelled 32-bit arithmetic)
+IsLongDigits(s) == Len(s) \in 8..16 /\ AllDigits(s) /\ s[1] # 48
 AsNum(v, isRecv) ==
   CASE IsNum(v) -> [r |-> "num", v |-> v]
+    [] v.k = "str" /\ isRecv /\ IsLongDigits(v.v) -> [r |-> "num", v |-> BigV(FALSE, v.v)]
     [] v.k = "str" -> IF IsNumSpell(v.v) THEN
                          (IF isRecv THEN [r |-> "num", v |-> NumOfSpell(v.v)] ELSE [r |-> "unspec"])
                       ELSE IF DefinitelyNotNumber(v.v) THEN [r |-> "err"]
@@ -318,6 +321,17 @@ NumericFilter(name, x, args) ==
               IN  FVal(NumSub(x, NumMul(b.v, IntV(fl))))
     [] OTHER -> FUnspec
 
+\* A whole receiver beyond 32 bits but within 2^53 (so exactly a 64-bit float) modulo a small positive p/q with q a
+\* power of two: x mod (p/q) = ((q * x) mod p) / q, and x mod p folds over the decimal digits - exact, within TLC's integers.
+TwoTo53 == <<57, 48, 48, 55, 49, 57, 57, 50, 53, 52, 55, 52, 48, 57, 57, 50>>
+RECURSIVE FoldMod(_, _, _)
+FoldMod(ds, p, r) == IF ds = <<>> THEN r ELSE FoldMod(Tail(ds), p, (r * 10 + (Head(ds) - 48)) % p)
+BigModDecided(x, args) ==
+  /\ IsBig(x) /\ ~x.neg /\ DigitsCmp(x.digits, TwoTo53) <= 0
+  /\ Len(args) = 1 /\ IsNum(args[1]) /\ ~IsBig(args[1])
+  /\ NumN(args[1]) > 0 /\ NumN(args[1]) <= 1000 /\ NumD(args[1]) \in {1, 2, 4, 8}
+BigMod(x, b) == LET pp == NumN(b) qq == NumD(b) IN Flt(((qq % pp) * FoldMod(x.digits, pp, 0)) % pp, qq)
+
 \* ------------------------------------------------------------------ date
 \* Decided for the fragment that does not depend on the clock or the time zone: a calendar date written
 \* YYYY-MM-DD (month 01-12, day 01-28) formatted with %Y %m %d %% and literal text.  A string without a digit
@@ -378,7 +392,9 @@ Filter(name, recv, args) ==
     (LET x == AsNum(recv, TRUE)
          \* TLC integers are 32-bit: magnitudes beyond 10^6 are outside the modelled arithmetic
          small(v) == ~IsNum(v) \/ (~IsBig(v) /\ AbsI(NumN(v)) <= 1000000 /\ NumD(v) <= 10000)
-     IN  IF x.r = "num" /\ ~(small(x.v) /\ \A i \in 1..Len(args) : small(args[i])) THEN FUnspec
+     IN  IF name \in {"modulo", "divided_by"} /\ x.r = "num" /\ Len(args) = 1 /\ IsNum(args[1]) /\ ~IsBig(args[1]) /\ NumN(args[1]) = 0 THEN FErr
+         ELSE IF name = "modulo" /\ x.r = "num" /\ BigModDecided(x.v, args) THEN FVal(BigMod(x.v, args[1]))
+         ELSE IF x.r = "num" /\ ~(small(x.v) /\ \A i \in 1..Len(args) : small(args[i])) THEN FUnspec
          ELSE IF x.r = "num" THEN NumericFilter(name, x.v, args)
          ELSE IF x.r = "err" THEN FErr ELSE FUnspec)
   ELSE FUnspec
